@@ -506,6 +506,7 @@ fn history_symbols(file: bool) -> Vec<H> {
 fn run(ctx: &Ctx, report: &mut Report) {
     crate::util::silence_panics();
     super::apifam::run_life_family(ctx, report, "C15");
+    super::live::run_live_family(ctx, report, "C15");
     let keys = strings(3);
     let pols = all_policies();
     report.fact("policies", json!(pols.len()));
@@ -608,6 +609,9 @@ fn run(ctx: &Ctx, report: &mut Report) {
 
 fn replay(case: &Value) -> anyhow::Result<(bool, String)> {
     if let Some(r) = super::apifam::replay_life(case, "C15")? {
+        return Ok(r);
+    }
+    if let Some(r) = super::live::replay_live(case, "C15:0")? {
         return Ok(r);
     }
     let keys = strings(3);
